@@ -5,6 +5,7 @@ import (
 	"go/ast"
 	"go/token"
 	"go/types"
+	"sort"
 	"strings"
 
 	"golang.org/x/tools/go/ssa"
@@ -67,6 +68,10 @@ func runC07(c *Config, r *Report) {
 	}
 	copiersAlwaysCopy(ic, r, "R07.7")
 	pureLookups(ic, r, "R07.19")
+	c07R23(ic, r)
+	// R07.22: what the host obtains from Symbols reflects the declarations of the moment
+	pureFuncs(ic, r, "R07.22", []string{"Interpreter.Symbols"}, 1, "computed-from-the-current-tables-at-each-call",
+		"functions and variables can be declared or redefined by a later Eval, and packages added by a later import or Use: a result remembered per import path hands the host the functions of the earlier state (old body, missing names)", true)
 	// R07.21: = R01.34: a declared function returned by a script function reaches the host as a func value
 	{
 		sub := newReport("C01")
@@ -857,6 +862,7 @@ func zeroTableAgreement(ic *IC, r *Report, rule string) {
 
 func init() {
 	ruleText["R07.20"] = "= R04.13 on callBin: x, err := host.F() with err already declared assigns the existing err - the closure storing the results of a compiled call replaces a destination's slot by a new variable only under a test of node.redeclared"
+	ruleText["R07.22"] = "(*Interpreter).Symbols computes what it returns from the interpreter's current tables at each call: it and the in-package functions it calls store nothing outside their own locals (no field of the interpreter, no map that is not created locally, no package-level variable) - same analysis as R07.19/R05.6"
 	ruleText["R07.21"] = "= R01.34 shared: a declared function returned or stored as a value is a function value (callable by the host through reflect), never the interpreter's *node"
 	ruleText["R07.19"] = "= R05.6 shared: the choice of the wrapper type handed to compiled code (getWrapper) and the method look-ups it rests on keep no state between calls - the wrapper depends on the interpreted type's own methods, not only on the host interface"
 	ruleText["R07.15"] = "= R05.8 shared (an interpreted struct handed to compiled code keeps its interpreted methods)"
@@ -1129,5 +1135,96 @@ func c07R18(ic *IC, r *Report) {
 	})
 	if n < 2 {
 		r.Errorf("R07.18: only %d uses of funcType.In(variadic) for an argument type found in callBin", n)
+	}
+}
+
+func init() {
+	ruleText["R07.23"] = "in the generator of calls to compiled functions (callBin) the position compared with the index of the variadic parameter is the position used to index the parameter types: every comparison `X >= v`, where v is the variable that also indexes the parameter list for the variadic element type (funcType.In(v)), has for X a sum of terms that is also the argument of an In call of the function (the argument index offset by the receiver) - for a method the two differ by one and the first variadic element would be given the type of the slice"
+}
+
+// c07R23: round-8 seed. One of the two tests `i+rcvrOffset >= variadic` of callBin lost its offset.
+func c07R23(ic *IC, r *Report) {
+	info := ic.Info
+	fi := ic.fn(r, "callBin")
+	if fi == nil {
+		return
+	}
+	// local aliases: v := a + b (defined once)
+	alias := map[types.Object]ast.Expr{}
+	defs := map[types.Object]int{}
+	ast.Inspect(fi.Decl.Body, func(q ast.Node) bool {
+		as, ok := q.(*ast.AssignStmt)
+		if !ok || len(as.Lhs) != len(as.Rhs) {
+			return true
+		}
+		for i, l := range as.Lhs {
+			if id := identOf(l); id != nil {
+				o := info.ObjectOf(id)
+				defs[o]++
+				if _, isBin := unparen(as.Rhs[i]).(*ast.BinaryExpr); isBin && as.Tok == token.DEFINE {
+					alias[o] = as.Rhs[i]
+				}
+			}
+		}
+		return true
+	})
+	var terms func(e ast.Expr, depth int) []string
+	terms = func(e ast.Expr, depth int) []string {
+		e = unparen(e)
+		if b, ok := e.(*ast.BinaryExpr); ok && b.Op == token.ADD {
+			return append(terms(b.X, depth), terms(b.Y, depth)...)
+		}
+		if id := identOf(e); id != nil && depth < 3 {
+			if a, ok := alias[info.ObjectOf(id)]; ok && defs[info.ObjectOf(id)] == 1 {
+				return terms(a, depth+1)
+			}
+		}
+		return []string{types.ExprString(e)}
+	}
+	norm := func(e ast.Expr) string {
+		t := terms(e, 0)
+		sort.Strings(t)
+		return strings.Join(t, " + ")
+	}
+	inArgs := map[string]bool{}
+	bare := map[types.Object]bool{}
+	for _, c := range callsIn(info, fi.Decl.Body, true, "reflect.Type.In") {
+		if len(c.Args) != 1 {
+			continue
+		}
+		inArgs[norm(c.Args[0])] = true
+		if id := identOf(c.Args[0]); id != nil {
+			if _, isAlias := alias[info.ObjectOf(id)]; !isAlias {
+				bare[info.ObjectOf(id)] = true
+			}
+		}
+	}
+	n := 0
+	ast.Inspect(fi.Decl.Body, func(q ast.Node) bool {
+		b, ok := q.(*ast.BinaryExpr)
+		if !ok || (b.Op != token.GEQ && b.Op != token.GTR && b.Op != token.LSS && b.Op != token.LEQ) {
+			return true
+		}
+		x, v := b.X, identOf(b.Y)
+		if b.Op == token.LSS || b.Op == token.LEQ {
+			// v <= X written the other way round
+			if id := identOf(b.X); id != nil && bare[info.ObjectOf(id)] {
+				x, v = b.Y, id
+			}
+		}
+		if v == nil || !bare[info.ObjectOf(v)] {
+			return true
+		}
+		if _, isLit := unparen(x).(*ast.BasicLit); isLit {
+			return true // v >= 0: is the function variadic at all
+		}
+		n++
+		nx := norm(x)
+		r.Check(inArgs[nx] && nx != v.Name, "R07.23", fmt.Sprintf("callBin/variadic-test#%d/position-in-the-parameter-list", n), ic.pos(b.Pos()), "the position compared ("+nx+") also indexes the parameter types",
+			"callBin compares "+types.ExprString(x)+" (that is "+nx+") with the index of the variadic parameter "+v.Name+", but no parameter type is taken at that position (In is called with "+strings.Join(sortedKeys(inArgs), ", ")+"): the offset of the receiver is missing, so for a method of a compiled type the first variadic argument is treated as a fixed parameter and wrapped for (or converted to) the type of the slice - l.Println(scriptStringer) on a host value panics in reflect")
+		return true
+	})
+	if n < 2 {
+		r.Errorf("R07.23: only %d comparisons with the index of the variadic parameter found in callBin", n)
 	}
 }
